@@ -112,6 +112,15 @@ func c18Measure(cs c18Case) (allocs float64, bound float64, skipped bool) {
 	case "conv":
 		src := mkBuf(s, slen(L))
 		dst := mkBuf(d, L)
+		// the source holds a mix of values (every branch of a conversion: negative, fractional, clipped,
+		// extreme, zero), not silence
+		vals := valSpecials(s)
+		if dyn.Types[s].Kind == dyn.Float {
+			vals = append(vals, dyn.F(-0.5), dyn.F(0.25), dyn.F(-1.5), dyn.F(2), dyn.F(-0.001), dyn.F(0.999))
+		}
+		for i := 0; i < src.Len(); i++ {
+			src.SetSample(i, vals[(i*7+i/len(vals))%len(vals)])
+		}
 		return dyn.AllocsPerRun(c18Runs, func() { dyn.Conv(src, dst) }), 0, false
 	case "conv-aliased":
 		// source and destination share storage (same element type): the very same buffer (variant 0),
@@ -181,6 +190,11 @@ func c18Measure(cs c18Case) (allocs float64, bound float64, skipped bool) {
 				return 0, 0, true
 			}
 			return b.AllocsSlice(1, L-1, c18Runs), 1, false
+		case 4: // an empty window inside the samples
+			if L < 2 {
+				return 0, 0, true
+			}
+			return b.AllocsSlice(L/2, L/2, c18Runs), 1, false
 		}
 		return b.AllocsSlice(0, L, c18Runs), 1, false
 	case "pool":
@@ -257,8 +271,8 @@ func init() {
 									cases = append(cases, c18Case{Op: op, S: tn(t), D: tn(t), C: C, L: L, Spare: spare, Variant: 1})
 								}
 								if op == "slice" {
-									for v := 1; v <= 3; v++ {
-										if v == 3 || !spare {
+									for v := 1; v <= 4; v++ {
+										if v >= 3 || !spare {
 											cases = append(cases, c18Case{Op: op, S: tn(t), D: tn(t), C: C, L: L, Spare: spare, Variant: v})
 										}
 									}
